@@ -37,9 +37,9 @@ CHECKS = {
    note="Sampled schedules (distinct outcome vectors counted); the live part counts on closed-loop loopback delivery.",
    tech="runtime monitoring: conservation oracle over recorded snapshot histories + API projection comparison (race detector) + socket-level conservation on a running service (faketime)"),
  "C20": dict(cat="fault_enumeration",
-   text="Child processes run the real credential manager and are cut off by RLIMIT_FSIZE=k (write error EFBIG, or death by SIGXFSZ) for EVERY k in 0..len(document)+1 of the save, for several store sizes and operations; the parent reloads the file with a fresh manager (must be the old or the new set; after a failed save memory keeps the new set and a later save repairs the file). Shutdown phases of the save debounce (queued, picked up, cooling down, at hook points before/after the save with late changes) are walked on a virtual clock: after Stop the file holds the acknowledged set.",
-   note="Crash = process death / write error; kernel page-cache loss (power failure) is not modelled. Hook-directed phases need the verif build tag.",
-   tech="runtime monitoring: exhaustive crash-point injection in child processes + hook-directed shutdown schedules (synctest)"),
+   text="Child processes run the real credential manager and are cut off by RLIMIT_FSIZE=k (write error EFBIG, or death by SIGXFSZ) for EVERY k in 0..len(document)+1 of the save, for several store sizes and operations; the parent reloads the file with a fresh manager (must be the old or the new set; after a failed save memory keeps the new set and a later save repairs the file). Shutdown phases of the save debounce (queued, picked up, cooling down, at hook points before/after the save with late changes) are walked on a virtual clock: after Stop the file holds the acknowledged set. An instants part reads the kernel's own log of the store's directory (inotify) while the real manager saves, next to a goroutine that keeps loading the store like a restarting server: the only event allowed on the store's name is a complete file being moved onto it. A diskfull part meets a real ENOSPC on a small tmpfs for stores of 0..280 users (block-boundary growth) and reloads the store.",
+   note="Crash = process death / write error; kernel page-cache loss (power failure) is not modelled. Hook-directed phases need the verif build tag; the diskfull part is skipped (with a note) where mounting a tmpfs is not permitted.",
+   tech="runtime monitoring: exhaustive crash-point injection in child processes + hook-directed shutdown schedules (synctest) + inotify event-log / concurrent-reader monitor of the store's directory entry + real disk-full fault"),
  "C07": dict(cat="exploration",
    text="Real client <-> real server of SOCKS5 / HTTP CONNECT / Shadowsocks-none over a re-segmenting transport: every address kind and length, credentials over all byte values, method lists 1..255 with the acceptable method at every position, every dial-result code, negative authentication scripts, handshake bytes cut at every single/double position, data coalesced with the handshake in both directions; address/username re-read after Proceed/Abort.",
    note="Sampled beyond the enumerated cut points and list positions; TLS and the non-CONNECT HTTP path are covered by C16, not here.",
